@@ -87,3 +87,4 @@ theorem batchedArangeImpl_eq (count : List Nat) : batchedArangeImpl count = batc
         omega
 
 end TFVerif
+
